@@ -25,13 +25,19 @@ Inf == 9
 
 (* ---------------- Part 1: vectors ---------------- *)
 WVectors == {[kind |-> k, table |-> t, conf |-> c, wb |-> w] : k \in Kinds, t \in SUBSET Formats, c \in Configured, w \in WBehs}
-WValid(v) == (v.kind # "writer" => v.wb = "ok")
+(* an arbitrary io.Writer may fail or write short; a file may take only part of a record (file-size limit, *)
+(* volume full): FileSink then reopens its file and writes the record again, once                          *)
+WValid(v) == /\ (v.kind \notin {"writer", "file"} => v.wb = "ok")
+             /\ (v.kind = "file" => v.wb \in {"ok", "short"})
 Eff(c) == IF c = "" THEN "json" ELSE c
 WOutcome(v) ==
-  IF v.kind = "devnull" THEN [ok |-> TRUE, written |-> FALSE]                         \* pass-through special: success, nothing written
-  ELSE IF Eff(v.conf) \notin v.table THEN [ok |-> FALSE, written |-> FALSE]           \* no bytes for that format
-  ELSE IF v.kind = "devfull" \/ v.wb \in {"err", "short"} THEN [ok |-> FALSE, written |-> FALSE]
-  ELSE [ok |-> TRUE, written |-> TRUE]                                                \* exactly the stored bytes, once
+  IF v.kind = "devnull" THEN [ok |-> TRUE, written |-> FALSE, retried |-> FALSE]      \* pass-through special: success, nothing written
+  ELSE IF Eff(v.conf) \notin v.table THEN [ok |-> FALSE, written |-> FALSE, retried |-> FALSE]   \* no bytes for that format
+  \* retried: an error, or - when the second attempt on the reopened file succeeds - success with the whole record once
+  \* and contiguously in one file (what the failed attempt left behind is not part of any acknowledged record)
+  ELSE IF v.kind = "file" /\ v.wb = "short" THEN [ok |-> FALSE, written |-> FALSE, retried |-> TRUE]
+  ELSE IF v.kind = "devfull" \/ v.wb \in {"err", "short"} THEN [ok |-> FALSE, written |-> FALSE, retried |-> FALSE]
+  ELSE [ok |-> TRUE, written |-> TRUE, retried |-> FALSE]                             \* exactly the stored bytes, once
 
 CVectors == {[ready |-> d, timeout |-> t, cancel |-> c] : d \in {0, 2, Inf}, t \in {1, 3}, c \in {0, 2, Inf}}
 Min3(a, b, c) == IF a <= b /\ a <= c THEN a ELSE IF b <= c THEN b ELSE c
